@@ -23,4 +23,5 @@ def run(prog, rep, tier):
     apply(rep, "G3", "`attribute` yields own attributes first, then each integrated name once, each wrapped with the DIE it was read from (attribute_producer interpreted on DIE graphs)", r_dw.g3(prog, tier), 1)
     apply(rep, "M2", "`unit` lists every unit in raw mode and exactly the non-partial units in cooked mode, across all Dwarfs of a value (dwarf_unit_producer interpreted on abstract Dwarf lists)", r_dw.m2(prog, tier), 1)
     apply(rep, "M1", "a resolved DW_TAG_imported_unit is always replaced by the unit's children", r_dw.m1(prog), 1)
+    apply(rep, "M3", "cooked `child` = raw `child` with every DW_TAG_imported_unit replaced, recursively and in place, by the children of the unit it refers to - partial or not -, the import DIE itself not listed (die_it_producer interpreted on an abstract forest)", r_dw.m3(prog), 2)
     maybe_mutants("C06", rep, tier)
